@@ -4,6 +4,7 @@ import numpy as np
 from skgstat import Variogram, OrdinaryKriging
 
 from .common import quiet, frs, fr, parse_nums, close, gen_coords, gen_values
+from .common import guarded
 from . import krig, c07
 
 INFO = dict(
@@ -16,6 +17,7 @@ INFO = dict(
     assumptions=[])
 
 
+@guarded
 def check_case(ctx, case):
     coords = np.array(case['coords'], float)
     values = np.array(case['values'], float)
@@ -79,6 +81,43 @@ def check_case(ctx, case):
                               '%d held-out points is %r' % (metric, scores[metric], int(est.sum()), len(devs),
                                                             want[metric]), case, signature=sig)
     ctx.lean.ask(['c17', 'score', ' '.join('nan' if math.isnan(x) else fr(x) for x in devs)], cb)
+    # the whole jackknife through the end-to-end model (`jackknife`: hold-out, neighbour search, exact solve per
+    # selected point composed inside Lean); data sets with duplicated locations go through the per-point route
+    # below only, because OrdinaryKriging first removes duplicates (which shifts the indices)
+    if len(np.unique(coords, axis=0)) == len(coords) and len(coords) <= 40:
+        from scipy.spatial.distance import cdist
+        with quiet():
+            ok0 = OrdinaryKriging(descr, coordinates=coords, values=values)
+            g = ok0.gamma_model
+            D = cdist(coords, coords, metric=descr['dist_func'])
+            Gm = np.array([[float(g(D[a, b])) for b in range(len(coords))] for a in range(len(coords))])
+        rng_eff = float(ok0.range)
+
+        def cbj(f):
+            mdev = parse_nums(f[0]) if f[0] else []
+            nbs = [[int(t) for t in part.split()] for part in f[1].split(';')] if f[1] else []
+            ctx.count('jackknife_e2e')
+            scale = max(1.0, float(np.max(np.abs(values))))
+            for k, i in enumerate(idx.tolist()):
+                if (mdev[k] is None) != bool(math.isnan(devs[k])):
+                    ctx.violation('jackknife-e2e', 'held-out point %d: implementation deviation %r, end-to-end model %r'
+                                  % (i, devs[k], mdev[k]), case)
+                    return
+                if mdev[k] is None:
+                    continue
+                nb = nbs[k]
+                A = np.ones((len(nb) + 1, len(nb) + 1))
+                A[:-1, :-1] = Gm[np.ix_(nb, nb)]
+                np.fill_diagonal(A, 0.0)
+                cond = float(np.linalg.cond(A))
+                if not math.isfinite(cond) or cond > 1e9:
+                    continue
+                if abs(devs[k] - float(mdev[k])) > (1e-12 * cond + 1e-9) * scale:
+                    ctx.violation('jackknife-e2e', 'held-out point %d: deviation %r, leave-one-out kriging from all '
+                                  'remaining observations (exact solve) gives %r' % (i, devs[k], float(mdev[k])), case)
+                    return
+        ctx.lean.ask(['c17', 'jack', fr(rng_eff), '5', '15', str(len(coords)), frs(D.flatten()), frs(Gm.flatten()),
+                      frs(values), ' '.join(str(int(i)) for i in idx)], cbj)
     # one hold-out through the exact kriging model
     if ctx.rng.random() < 0.5:
         i = int(idx[0])
